@@ -226,6 +226,18 @@ Theorem C14_record_span : forall c o en st e p i s,
 Proof. exact record_span. Qed.
 Print Assumptions C14_record_span.
 
+(** which JsonVisitor methods treat names specially, per method as the source has it: only values recorded through
+    record_debug (u128 / i128 / ?x / %x / errors / format_args) lose a leading `r#` and, in the tracing-log build, are
+    skipped under a `log.*` name; str / integer / bool / float / bytes values are stored under the name as written *)
+Theorem C14_special_names_only_through_debug : forall v k,
+  strips_raw v = via_debug v /\ skips_log v = via_debug v /\
+  (via_debug v = false -> span_key k v = k /\ forall c, log_skipped c (k, v) = false).
+Proof.
+  intros v k. split; [apply strips_raw_is_via_debug|]. split; [apply skips_log_is_via_debug|].
+  intro H. split; [unfold span_key; rewrite strips_raw_is_via_debug, H; reflexivity | intro c; apply log_skipped_typed; exact H].
+Qed.
+Print Assumptions C14_special_names_only_through_debug.
+
 (** the two builds write the same lines for every history whose span field names never start with `log.` *)
 Theorem C14_log_feature_inert : forall lg o en ops,
   Forall no_log_names ops -> run_ops (repo_cfg_of lg) o en ops = run_ops (repo_cfg_of false) o en ops.
